@@ -64,16 +64,9 @@ theorem selector_not_sentinel (tbl : RuleTable) (sel : Bytes) (rootValue : JVal)
   · intro h; cases h
   · intro h; cases h
   · rename_i expr hp
-    have hns : ∀ g : Sig, g.confined = true → NoSig g (do
-        let v ← newValueJson rootValue
-        let rootCell ← newCell v
-        modifySt fun st => { st with root := some rootCell, ruleRoot := some rootCell }
-        let cell ← evalExpr Program.empty evalFuel expr
-        let root ← newCell .unknown
-        match (← copyValue cell root) with
-        | .error m => throwRt expr.token.pos m
-        | .ok c => pure c : EM CellId) := by
+    have hns : ∀ g : Sig, g.confined = true → NoSig g (selectorRun rootValue expr) := by
       intro g hg
+      unfold selectorRun
       refine NoSig.bind (NoSig.newValueJson g _) (fun v => NoSig.bind (NoSig.newCell g _) (fun rc =>
         NoSig.bind (NoSig.modifySt g _) (fun _ => NoSig.bind
           ((allNoSig Program.empty g hg empty_fnScoped evalFuel).expr _ (hsel expr hp g hg))
@@ -189,6 +182,29 @@ theorem processFiles_not_sentinel (hws : prog.WellScoped) (src : Bytes) (tbl : R
       simp only [StepRes.finished.injEq] at h
       exact processFile_not_sentinel prog hws src tbl sels hsel f g _ _ _ _ (by rw [hpf, h.1])
 
+theorem runEnd_not_sentinel (hws : prog.WellScoped) (src : Bytes) (g : Sig) (s2 : St) :
+    (runEnd prog src s2).outcome ≠ .sentinel g := by
+  unfold runEnd
+  have hend := NoSig.evalSpecialRules prog hws g (newCell (.nil none)) (NoSig.newCell g _)
+    (rulesOf prog .end_) (rulesOf_sub prog _)
+  split
+  · rename_i e s3 hee
+    intro h
+    exact hend _ _ (by rw [hee, (errOutcome_sentinel src e g).mp h])
+  · intro h; cases h
+  · intro h; cases h
+
+theorem runFiles_not_sentinel (hws : prog.WellScoped) (src : Bytes) (tbl : RuleTable)
+    (sels : List Bytes) (hsel : SelsScoped tbl sels) (files : List InputFile) (g : Sig) (s1 : St) :
+    (runFiles prog src tbl sels files s1).outcome ≠ .sentinel g := by
+  unfold runFiles
+  split
+  · rename_i o s2 hpf
+    intro h
+    have h' : o = Outcome.sentinel g := h
+    exact processFiles_not_sentinel prog hws src tbl sels hsel g files _ _ (by rw [hpf, h'])
+  · exact runEnd_not_sentinel prog hws src g _
+
 /-- **No internal signal ever surfaces**: for a well-scoped program and well-scoped selectors,
     whatever the input files contain and however the run ends, its outcome is not one of
     next / exit / break / continue / return. -/
@@ -196,30 +212,15 @@ theorem run_never_sentinel (hws : prog.WellScoped) (src : Bytes) (tbl : RuleTabl
     (sels : List Bytes) (hsel : SelsScoped tbl sels) (files : List InputFile) (g : Sig) :
     (runProgram prog src tbl sels files).outcome ≠ .sentinel g := by
   unfold runProgram
-  dsimp only
   have hbegin := NoSig.evalSpecialRules prog hws g (newCell (.nil none)) (NoSig.newCell g _)
     (rulesOf prog .begin_) (rulesOf_sub prog _)
-  have hend := NoSig.evalSpecialRules prog hws g (newCell (.nil none)) (NoSig.newCell g _)
-    (rulesOf prog .end_) (rulesOf_sub prog _)
   split
   · rename_i e s1 he
     intro h
     exact hbegin _ _ (by rw [he, (errOutcome_sentinel src e g).mp h])
   · intro h; cases h
   · intro h; cases h
-  · rename_i s1 he
-    split
-    · rename_i o s2 hpf
-      intro h
-      have h' : o = Outcome.sentinel g := h
-      exact processFiles_not_sentinel prog hws src tbl sels hsel g files _ _ (by rw [hpf, h'])
-    · rename_i s2 hpf
-      split
-      · rename_i e s3 hee
-        intro h
-        exact hend _ _ (by rw [hee, (errOutcome_sentinel src e g).mp h])
-      · intro h; cases h
-      · intro h; cases h
+  · exact runFiles_not_sentinel prog hws src tbl sels hsel files g _
 
 /-! ### the parser establishes well-scopedness (no hypothesis left) -/
 
